@@ -1,6 +1,6 @@
 (* C16 — bundled converter obeys round-trip laws for any mapped dataclass.
    Only statements, [exact], and Print Assumptions live here. *)
-From PG Require Import Lib.Strs Model.Converter Model.Serializer Proofs.Converter Proofs.Serializer.
+From PG Require Import Lib.Strs Model.Converter Model.Serializer Proofs.Converter Proofs.Serializer Proofs.SerializerCyclic.
 
 (* Encode then decode.  For every class table whose classes have bijective key maps and supported
    field types (ct_ok), every annotation built from them (ty_ok) and every instance conforming to it
@@ -18,11 +18,42 @@ Theorem C16_encode_decode :
               structure b64dec dt_parse date_parse uuid_parse time_parse int_of_str float_of_str str_of_json ct sreg j T = Ok v.
 Proof.
   intros until T. intros Hok Hi.
-  destruct (encode_decode_core b64dec b64enc dt_parse date_parse uuid_parse time_parse int_of_str float_of_str str_of_json
+  destruct (encode_decode_all b64dec b64enc dt_parse date_parse uuid_parse time_parse int_of_str float_of_str str_of_json
               ct sreg ureg H H0 H1 H2 v T Hok Hi) as [j [Hu [Hs _]]].
   exists j. split; assumption.
 Qed.
 Print Assumptions C16_encode_decode.
+
+(* Decode then encode.  Under the same hypotheses on the table, plus: defaults of optional fields are
+   None / [] / {} on Optional / list / dict annotations (defaults_ok).  Every document that conforms to
+   an annotation (canonical leaf texts, no unknown keys, required keys present; arbitrary nesting, no
+   bound) is structured, the instance is unstructured again, and the result is the input document
+   up to (1) object keys in class order and (2) absent optional keys reappearing as null or as an empty
+   container (rt_rel). *)
+Theorem C16_decode_encode :
+  forall b64dec b64enc dt_parse date_parse uuid_parse time_parse int_of_str float_of_str str_of_json ct sreg ureg,
+    (forall b, b64dec (b64enc b) = Some b) ->
+    ct_ok ct -> all_hooked ct sreg -> all_hooked ct ureg -> defaults_ok ct ->
+    forall j T, ty_ok T = true -> conforms b64enc dt_parse date_parse uuid_parse time_parse ct T j ->
+    exists v j',
+      structure b64dec dt_parse date_parse uuid_parse time_parse int_of_str float_of_str str_of_json ct sreg j T = Ok v /\
+      unstructure b64enc ct ureg v T = Ok j' /\ rt_rel ct T j j'.
+Proof.
+  intros until T. intros Hok Hc.
+  destruct (decode_encode_all b64dec b64enc dt_parse date_parse uuid_parse time_parse int_of_str float_of_str
+              str_of_json ct sreg ureg H H0 H1 H2 H3 j T Hok Hc) as [v [j' [Hs [Hu [Hr _]]]]].
+  exists v, j'. repeat split; assumption.
+Qed.
+Print Assumptions C16_decode_encode.
+
+(* non-vacuity of the decode side: the demo table has lawful defaults and a conforming document with an
+   absent optional key *)
+Theorem C16_decode_guard_nonvacuous :
+  defaults_ok ct_demo /\
+  forall b64enc dt_parse date_parse uuid_parse time_parse,
+    conforms b64enc dt_parse date_parse uuid_parse time_parse ct_demo (TData 0) (j_demo b64enc).
+Proof. exact (conj ct_demo_defaults j_demo_conforms). Qed.
+Print Assumptions C16_decode_guard_nonvacuous.
 
 (* The hypotheses above are satisfiable by a non-trivial table (renamed keys incl. a key that differs
    from another only by case-fold, an optional list, bytes). *)
@@ -32,34 +63,49 @@ Theorem C16_guard_nonvacuous :
 Proof. exact (conj ct_demo_ok (conj demo_hooked (conj eq_refl v_demo_ok))). Qed.
 Print Assumptions C16_guard_nonvacuous.
 
-(* The same at the level of the two entry points and for ANY prior state of the converter, for tables
-   all of whose classes are reached by the registration walk from the root class (executable guard
-   reaches_all; what is not proved is that `reach` always is the full reachability closure). *)
-Theorem C16_api_encode_decode_partial :
+(* FULL.  The same through the two entry points, for ANY prior state of the converter: the model's
+   registration walk is proved to be the least set containing the classes of the annotation and
+   closed under "a field mentions a class" (Proofs/Reach.v), and the round trip only needs the hooks
+   of that set. *)
+Theorem C16_api_encode_decode :
   forall b64dec b64enc dt_parse date_parse uuid_parse time_parse int_of_str float_of_str str_of_json ct,
     (forall b, b64dec (b64enc b) = Some b) -> ct_ok ct ->
-    forall c v st, reaches_all ct (TData c) = true ->
-      inst_ok dt_parse date_parse uuid_parse time_parse ct (TData c) v ->
+    forall c v st, inst_ok dt_parse date_parse uuid_parse time_parse ct (TData c) v ->
       exists j st', unstructure_to_dict b64enc ct st v = (st', Returned j) /\
         snd (structure_from_dict b64dec dt_parse date_parse uuid_parse time_parse int_of_str float_of_str str_of_json ct st' (TData c) j)
         = Returned v.
-Proof. exact api_encode_decode_partial. Qed.
-Print Assumptions C16_api_encode_decode_partial.
+Proof. exact api_encode_decode_full. Qed.
+Print Assumptions C16_api_encode_decode.
 
-(* History independence of decoding: under the same guard the outcome of structure_from_dict does
-   not depend on what was registered / structured before (any two prior states, any document,
-   conforming or not, any codecs). *)
-Theorem C16_history_free_partial :
-  forall b64dec dt_parse date_parse uuid_parse time_parse int_of_str float_of_str str_of_json ct T,
-    reaches_all ct T = true -> forall st1 st2 j,
+(* FULL.  History independence of decoding: for every class table, annotation, document (conforming
+   or not), codecs and every two prior states, structure_from_dict gives the same outcome. *)
+Theorem C16_history_free :
+  forall b64dec dt_parse date_parse uuid_parse time_parse int_of_str float_of_str str_of_json ct T st1 st2 j,
     snd (structure_from_dict b64dec dt_parse date_parse uuid_parse time_parse int_of_str float_of_str str_of_json ct st1 T j) =
     snd (structure_from_dict b64dec dt_parse date_parse uuid_parse time_parse int_of_str float_of_str str_of_json ct st2 T j).
-Proof. exact history_free_partial. Qed.
-Print Assumptions C16_history_free_partial.
+Proof. exact history_free_full. Qed.
+Print Assumptions C16_history_free.
 
-Theorem C16_reach_guard_nonvacuous : reaches_all ct_demo (TData 0) = true.
-Proof. vm_compute. reflexivity. Qed.
-Print Assumptions C16_reach_guard_nonvacuous.
+(* History independence of encoding, under the guard "the instance conforms to its class" (so that
+   every dataclass instance in it sits where an annotation says, none hidden under Any). *)
+Theorem C16_history_free_encode_partial :
+  forall b64enc dt_parse date_parse uuid_parse time_parse ct, ct_ok ct -> forall c v st1 st2,
+    inst_ok dt_parse date_parse uuid_parse time_parse ct (TData c) v ->
+    snd (unstructure_to_dict b64enc ct st1 v) = snd (unstructure_to_dict b64enc ct st2 v).
+Proof. exact history_free_encode. Qed.
+Print Assumptions C16_history_free_encode_partial.
+
+(* F16b: without that guard encoding IS history-dependent: a dict holding an instance is written with
+   the python attribute names by a fresh converter and with the wire keys once the class has been
+   encoded on its own (the root is not a dataclass, so nothing is registered for it). *)
+Theorem C16_refuted_F16b : forall b64enc,
+  let st2 := fst (unstructure_to_dict b64enc [k_F16b] st0 inst_F16b) in
+  snd (unstructure_to_dict b64enc [k_F16b] st0 root_F16b)
+    = Returned (JObj [([107], JObj [([120;95;121], JInt 5)])]) /\
+  snd (unstructure_to_dict b64enc [k_F16b] st2 root_F16b)
+    = Returned (JObj [([107], JObj [([120;89], JInt 5)])]).
+Proof. exact refuted_F16b. Qed.
+Print Assumptions C16_refuted_F16b.
 
 (* Whatever the history, the type and the document: structure_from_dict returns or raises ValueError. *)
 Theorem C16_errors :
@@ -92,6 +138,23 @@ Print Assumptions C16_serializer_guard_nonvacuous.
 Theorem C16_serializer_cyclic_example : serializer_ok (serialize_top h_cyc 0) /\ ranked h_cyc = false.
 Proof. exact h_cyc_ok. Qed.
 Print Assumptions C16_serializer_cyclic_example.
+
+(* The serialiser on the CYCLIC heaps that work.  Heaps whose dataclass instances are forward-reference
+   ones (attributes may point anywhere: self reference, a/b pair, rings, back pointers — arbitrary
+   cycles through dataclass attributes), whose lists / dicts store only smaller indices (no cycle made
+   of containers alone) and without cattrs-followed dataclasses (those are F16a): from every root the
+   serialiser terminates within the model's budget, with JSON that has no null-valued key.
+   (lexicographic measure: dataclass objects not yet in the visited set, then the index) *)
+Theorem C16_serializer_cyclic : forall h, container_ranked h = true -> scalars_ok h = true ->
+  forall r, serializer_ok (serialize_top h r).
+Proof. exact serializer_cyclic. Qed.
+Print Assumptions C16_serializer_cyclic.
+
+Theorem C16_serializer_cyclic_nonvacuous :
+  container_ranked h_cyc2 = true /\ scalars_ok h_cyc2 = true /\ ranked h_cyc2 = false /\
+  serialize_top h_cyc2 2 = SOk (JObj [([112], JObj []); ([105], JObj []); ([107], JArr [JObj [([118], JInt 1)]])]).
+Proof. exact h_cyc2_in_class. Qed.
+Print Assumptions C16_serializer_cyclic_nonvacuous.
 
 (* F16d (fixed): the old witness — a dict holding a forward-reference dataclass that holds another
    instance — now serialises to plain JSON without null-valued keys. *)
